@@ -52,12 +52,12 @@ namespace mon
 
    struct config
    {
-      const char* name;       // "mon", "plain", "buf", ...
-      int variant;            // action attachment variant
-      bool lazy;
-      int eolpol;             // 0 lf, 1 cr, 2 crlf, 3 lf_crlf, 4 cr_crlf
-      int ctrl;               // bit0 enable-all, bit1 with unwind
-      bool plain;
+      const char* name = "";  // "mon", "plain", "buf", ...
+      int variant = 0;        // action attachment variant
+      bool lazy = false;
+      int eolpol = 3;         // 0 lf, 1 cr, 2 crlf, 3 lf_crlf, 4 cr_crlf
+      int ctrl = 0;           // bit0 enable-all, bit1 with unwind
+      bool plain = false;
       bool tree = false;
       int selvariant = 0;
       bool ana = false;
